@@ -70,29 +70,7 @@ def _path_chain(prog, cg, eff, chk, W1, entry, rewriters, label):
                               inst, _short(caller.qualname), ', '.join(vf.shape(a)[:50] for a in args)))
 
 
-def run(tier='quick'):
-    prog = program.load()
-    cg = callgraph.get(prog)
-    eff = effects.Effects(prog, cg)
-    rowmap.install_program(prog)
-    chk = Check('C11', tier)
-    chk.units = len(prog.tus)
-    W1 = chk.rule('W1', 'every 1.x operation that changes the crate forest writes all redundant encodings it '
-                        'affects, with the right roles: parent-list row (origin = crate, parent = parent or self), '
-                        'hierarchy rows (ancestors of the parent, looked up by crateIdChild = parent, plus the '
-                        'parent itself), path strings of the crate and its subtree', floor=8)
-    W2 = chk.rule('W2', 'every operation that writes Track.path also writes the file name and the extension / '
-                        'file type from the same value (create, update, set_relative_path; both generations)', floor=6)
-    W3 = chk.rule('W3', 'every blob column is encoded and decoded by one codec class', floor=10)
-    W4 = chk.rule('W4', 'referential cleanup when a track or crate is deleted (all schema versions)', floor=4)
-    W5 = chk.rule('W5', 'every 2.x DDL has the INSERT and UPDATE triggers on Track that fill originDatabaseUuid '
-                        '/ originTrackId', floor=14)
-    W6 = chk.rule('W6', 'the databaseUuid stored with a playlist entity by crate::add_track is read from '
-                        'Information.uuid', floor=1)
-    chk.assume('the DDL triggers behave as declared; SQLite integrity of pages is not the library\'s concern')
-    chk.note('not decided: that an independent reader accepts the file after arbitrary histories '
-             '(integrity_check, decoding of every stored blob, acyclicity of the chains)')
-
+def forest_encodings(prog, cg, eff, chk, W1, only=None, paths=True):
     # ---- W1 ------------------------------------------------------------------------------
     ops = [
         (V1 + 'engine_database_impl::create_root_crate', 'root'),
@@ -101,6 +79,8 @@ def run(tier='quick'):
         (V1 + 'engine_crate_impl::set_name', 'rename'),
     ]
     for qn, op in ops:
+        if only is not None and op not in only:
+            continue
         f, sms = _site_maps(prog, cg, eff, qn)
         chk.analysed(f)
         by = {}
@@ -155,7 +135,7 @@ def run(tier='quick'):
                  lambda sm: cols(sm).get('crateoriginid') == 'id()')
             need('delete', 'cratehierarchy', 'DELETE of the old CrateHierarchy rows (crateIdChild = id())',
                  lambda sm: wheres(sm).get('crateidchild') == 'id()')
-        if op in ('rename', 'move'):
+        if paths and op in ('rename', 'move'):
             # Crate.path of the crate itself and of its subtree
             upd = by.get(('update', 'crate'), [])
             reach = cg.reachable([f])
@@ -183,6 +163,69 @@ def run(tier='quick'):
                                   inst, '' if own or op == 'move' else 'no UPDATE of the crate\'s own path; ',
                                   '' if sub else 'no function that rewrites Crate.path along children() is reached, so the paths of the crate and its '
                                   'sub-crates are not rewritten'))
+
+
+def _suffix_helpers(prog, cg, chk, W2, roots):
+    """File name and extension are the parts of the path after its LAST '/' and LAST '.'.  The
+    helpers the path writers derive them with (util functions string -> string / optional<string>
+    that cut with substr) must locate the separator searching from the end."""
+    reach = cg.reachable(roots)
+    n = 0
+    for k, (g, _, _) in sorted(reach.items(), key=lambda kv: str(kv[0])):
+        if g.body is None or not (g.qualname or '').startswith('djinterop::util::') or len(g.params) != 1:
+            continue
+        if 'string' not in (g.params[0].get('type') or '') or 'string' not in (g.ret or ''):
+            continue
+        cuts = [x for x in walk(g.body) if x.get('kind') == 'CXXMemberCallExpr'
+                and strip(children(x)[0]).get('name') == 'substr']
+        if not cuts:
+            continue
+        searches = [(strip(children(x)[0]).get('name'), x) for x in walk(g.body)
+                    if x.get('kind') == 'CXXMemberCallExpr'
+                    and (strip(children(x)[0]).get('name') or '') in (
+                        'find', 'rfind', 'find_first_of', 'find_last_of', 'find_first_not_of', 'find_last_not_of')]
+        n += 1
+        short = (g.qualname or '').replace('djinterop::', '')
+        if not searches:
+            chk.unknown(W2, short, 'cuts its argument with substr but no string search was recognised')
+            continue
+        bad = [(nm, x) for nm, x in searches if nm not in ('rfind', 'find_last_of')]
+        inst = '%s locates the separator from the end (%s)' % (short, ', '.join(nm for nm, _ in searches))
+        if not bad:
+            chk.ok(W2, inst, locstr(g.node))
+        else:
+            chk.violation(W2, '%s|separator searched from the front' % short, locstr(bad[0][1]),
+                          '%s uses %s: for a path with more than one separator the part after the FIRST one is '
+                          'taken, so the stored file name / extension disagree with the track\'s path' % (
+                              short, bad[0][0]))
+    if n < 2:
+        chk.fail_broken('W2: the file-name / extension helpers were not found among the callees of the path writers')
+
+
+def run(tier='quick'):
+    prog = program.load()
+    cg = callgraph.get(prog)
+    eff = effects.Effects(prog, cg)
+    rowmap.install_program(prog)
+    chk = Check('C11', tier)
+    chk.units = len(prog.tus)
+    W1 = chk.rule('W1', 'every 1.x operation that changes the crate forest writes all redundant encodings it '
+                        'affects, with the right roles: parent-list row (origin = crate, parent = parent or self), '
+                        'hierarchy rows (ancestors of the parent, looked up by crateIdChild = parent, plus the '
+                        'parent itself), path strings of the crate and its subtree', floor=8)
+    W2 = chk.rule('W2', 'every operation that writes Track.path also writes the file name and the extension / '
+                        'file type from the same value (create, update, set_relative_path; both generations)', floor=6)
+    W3 = chk.rule('W3', 'every blob column is encoded and decoded by one codec class', floor=10)
+    W4 = chk.rule('W4', 'referential cleanup when a track or crate is deleted (all schema versions)', floor=4)
+    W5 = chk.rule('W5', 'every 2.x DDL has the INSERT and UPDATE triggers on Track that fill originDatabaseUuid '
+                        '/ originTrackId', floor=14)
+    W6 = chk.rule('W6', 'the databaseUuid stored with a playlist entity by crate::add_track is read from '
+                        'Information.uuid', floor=1)
+    chk.assume('the DDL triggers behave as declared; SQLite integrity of pages is not the library\'s concern')
+    chk.note('not decided: that an independent reader accepts the file after arbitrary histories '
+             '(integrity_check, decoding of every stored blob, acyclicity of the chains)')
+
+    forest_encodings(prog, cg, eff, chk, W1)
     # ---- W2 ------------------------------------------------------------------------------
     order = rowrules.enum_order(prog)
     from . import c13
@@ -214,6 +257,7 @@ def run(tier='quick'):
                                   [x for x, h in (('filename', has_name), ('extension / fileType', has_ext)) if not h])))
             else:
                 chk.unknown(W2, inst, 'no write of Track.path found')
+    _suffix_helpers(prog, cg, chk, W2, [a.func for a in (aupd, acre, aset)])
     # ---- W3 / W4 -------------------------------------------------------------------------
     funcs = c01.v1_storage_functions(prog)
     maps = [m for m in rowrules.expand_sites(prog, cg, eff, funcs)
